@@ -524,7 +524,7 @@ SelEnd ==
         /\ cgt' = IF take THEN <<>> ELSE cgt
         /\ got' = [t \in Tasks |-> IF t \in sw THEN cgt ELSE got[t]]
         /\ ts' = [t \in Tasks |-> IF t \in woken THEN "ready" ELSE ts[t]]
-        /\ reg' = [t \in Tasks |-> IF t \in woken \/ (t \in sw0 /\ Variant = "sig_one") THEN NoReg ELSE reg[t]]
+        /\ reg' = [t \in Tasks |-> IF t \in woken THEN NoReg ELSE reg[t]]
         /\ sel' = "no" /\ sp' = NoSp /\ sr' = NoSr /\ saved' = {} /\ idl' = -1 /\ oc' = 0
         /\ sn' = sn + 1
         /\ UNCHANGED <<occ, open, now, disp, blk, pnd, base, smset, sm, tch, pc, opr, stg, wleft, cur, xn, spn>>
